@@ -18,6 +18,7 @@ import (
 	"net/http"
 	"os"
 	"strings"
+	"sync"
 	"time"
 
 	"git.torproject.org/pluggable-transports/snowflake.git/v2/common/messages"
@@ -50,9 +51,13 @@ func makePeerConnectionFromOffer(sdp *webrtc.SessionDescription,
 	if err != nil {
 		return nil, fmt.Errorf("accept: NewPeerConnection: %s", err)
 	}
+	// The remote peer may open more than one data channel; dataChan must be
+	// closed only once (a second close would panic in a pion goroutine and
+	// take the whole server down).
+	var opened sync.Once
 	pc.OnDataChannel(func(dc *webrtc.DataChannel) {
 		dc.OnOpen(func() {
-			close(dataChan)
+			opened.Do(func() { close(dataChan) })
 		})
 		dc.OnClose(func() {
 			dc.Close()
